@@ -332,13 +332,15 @@ theorem lemire_wrapper (F : FTy) (hF : IsLemireFloat F) (q : Int) (w : Nat) (neg
 
 /-- an invalid-marked answer of `compute_float` is an estimate of the value (`Proof.LemireStable.EstOK`): normalised
 mantissa, small un-biased exponent, value within `[mant, mant + 4)` at that exponent -/
-theorem lemire_invalid_estOK (F : FTy) (hF : IsLemireFloat F) (q : Int) (w : Nat) (fp : ExtendedFloat80)
+theorem lemire_invalid_facts (F : FTy) (hF : IsLemireFloat F) (q : Int) (w : Nat) (fp : ExtendedFloat80)
     (hw : w < 2 ^ 64) (hcf : Lemire.computeFloat F q w false = .ok fp) (hinv : fp.exp < 0) :
-    ∃ p eb, Layout F p eb ∧ LexVerif.Proof.Lemire.EstOK F p fp (powFrac 10 q w).1 (powFrac 10 q w).2 := by
+    ∃ p eb, Layout F p eb ∧ LexVerif.Proof.Lemire.EstOK F p fp (powFrac 10 q w).1 (powFrac 10 q w).2 ∧
+      LexVerif.Proof.Lemire.LossyOK F q w (powFrac 10 q w).1 (powFrac 10 q w).2 := by
   have key : ∀ {p eb sm lg rlo rhi}, LemLayout F p eb sm lg rlo rhi → (27 : Int) ≤ lg → rhi < 28 → rlo < 28 →
       2 ^ 64 ≤ 5 ^ (rlo + 1) * 2 ^ p →
       (∀ e, 1 ≤ e → e ≤ rlo → LexVerif.Proof.Lemire.tieRowOk p e = true) → 91 ≤ 2 ^ (eb - 1) - 1 →
-      LexVerif.Proof.Lemire.EstOK F p fp (powFrac 10 q w).1 (powFrac 10 q w).2 := by
+      LexVerif.Proof.Lemire.EstOK F p fp (powFrac 10 q w).1 (powFrac 10 q w).2 ∧
+        LexVerif.Proof.Lemire.LossyOK F q w (powFrac 10 q w).1 (powFrac 10 q w).2 := by
     intro p eb sm lg rlo rhi LL hlg hrhi hrlo hwin htc hbias
     by_cases hdom : LemirePartialDomain F q w
     · obtain ⟨fp2, e1, e2, _⟩ := lemire_sound_partial F hF q w hw hdom
@@ -376,10 +378,17 @@ theorem lemire_invalid_estOK (F : FTy) (hF : IsLemireFloat F) (q : Int) (w : Nat
   · exact ⟨_, _, layout_f32, key lemLayout_f32 (by decide) (by decide) (by decide) (by decide)
       LexVerif.Proof.Lemire.tieRows_f32 (by decide)⟩
 
+/-- the estimate half of `lemire_invalid_facts` -/
+theorem lemire_invalid_estOK (F : FTy) (hF : IsLemireFloat F) (q : Int) (w : Nat) (fp : ExtendedFloat80)
+    (hw : w < 2 ^ 64) (hcf : Lemire.computeFloat F q w false = .ok fp) (hinv : fp.exp < 0) :
+    ∃ p eb, Layout F p eb ∧ LexVerif.Proof.Lemire.EstOK F p fp (powFrac 10 q w).1 (powFrac 10 q w).2 := by
+  obtain ⟨p, eb, lay, hest, _⟩ := lemire_invalid_facts F hF q w fp hw hcf hinv
+  exact ⟨p, eb, lay, hest⟩
+
 /-- **`LemireFallbackBrackets` holds** (`Proof.LemireFallback`) -/
 theorem lemire_fallback_brackets : LemireFallbackBrackets := by
   intro F hF q w fp _ hw hcf hinv
-  obtain ⟨p, eb, lay, hest⟩ := lemire_invalid_estOK F hF q w fp hw hcf hinv
+  obtain ⟨p, eb, lay, hest, _⟩ := lemire_invalid_facts F hF q w fp hw hcf hinv
   have hden : 0 < (powFrac 10 q w).2 := by
     unfold powFrac; split
     · exact Nat.one_pos
@@ -392,7 +401,7 @@ theorem lemire_estimate_facts (F : FTy) (hF : IsLemireFloat F) (q : Int) (w : Na
     (hw : w < 2 ^ 64) (hcf : Lemire.computeFloat F q w false = .ok fp) (hinv : fp.exp < 0) :
     2 ^ 63 ≤ fp.mant ∧ fp.mant < 2 ^ 64 ∧ -(4096 : Int) ≤ fp.exp - invalidFp ∧ fp.exp - invalidFp ≤ 4096 ∧
       Bracket F fp (powFrac 10 q w).1 (powFrac 10 q w).2 := by
-  obtain ⟨p, eb, lay, hest⟩ := lemire_invalid_estOK F hF q w fp hw hcf hinv
+  obtain ⟨p, eb, lay, hest, _⟩ := lemire_invalid_facts F hF q w fp hw hcf hinv
   have hden : 0 < (powFrac 10 q w).2 := by
     unfold powFrac; split
     · exact Nat.one_pos
